@@ -468,9 +468,19 @@ impl<C: Suite> Interp<C> {
                         if json_form {
                             match serde_json::to_string(&x) {
                                 Err(_) => (json!({"ok": false, "stage": "ser"}), None),
+                                // the saved text is read back the three ways an application may: from a string,
+                                // from a reader (a file), from an already parsed value
                                 Ok(s) => match serde_json::from_str::<$ty>(&s) {
                                     Err(_) => (json!({"ok": false, "stage": "de"}), None),
-                                    Ok(y) => (json!({"ok": true, "same": y == x}), Some($variant(y))),
+                                    Ok(y) => {
+                                        let via_reader = serde_json::from_reader::<_, $ty>(std::io::Cursor::new(s.as_bytes())).ok();
+                                        let via_value = serde_json::from_str::<Value>(&s).ok().and_then(|v| serde_json::from_value::<$ty>(v).ok());
+                                        match (via_reader, via_value) {
+                                            (None, _) => (json!({"ok": false, "stage": "de:reader"}), None),
+                                            (_, None) => (json!({"ok": false, "stage": "de:value"}), None),
+                                            (Some(a), Some(b)) => (json!({"ok": true, "same": y == x && a == x && b == x}), Some($variant(y))),
+                                        }
+                                    }
                                 },
                             }
                         } else {
